@@ -143,6 +143,7 @@ type vfC16Step struct {
 	Fail string     `json:"fail"` // none | local | peers
 	Evs  []vfC16Ev  `json:"evs"`
 	Addr string     `json:"addr"`
+	Ov   string     `json:"ov"` // "" | handler | peers: this step happens while the previous one is held there
 	Exp  *vfC16Exp  `json:"exp,omitempty"`
 }
 
@@ -172,6 +173,8 @@ type vfC16Rec struct {
 	Filt      []string    `json:"filt"`
 	C0        string      `json:"c0peer"`
 	Policy    string      `json:"policy"`
+	Ov        string      `json:"ov"`
+	Held      bool        `json:"held"` // the step was still in progress (held) when the next one happened: no state to judge
 	Hosts     []vfC16Host `json:"hosts"`
 	ByID      []vfC16HA   `json:"byid"`
 	ByAddr    []vfC16PA   `json:"byaddr"`
@@ -211,6 +214,26 @@ type vfC16World struct {
 	spawns    int64 // successful pool connects (each one starts a handleNodeConnected goroutine)
 	hostUps   int64 // HostUp calls that reached the policy (end of handleNodeConnected)
 	fills     int64 // pool fills under way (hooks p_fill_begin / p_fill_end)
+
+	// wire mode: what the driver's debouncers are doing (hooks, wrapped callbacks), so that
+	// quiescence is observed and steps can be placed inside a flush / a refresh
+	evPending   int32 // events debounced and not yet flushed
+	evQueued    int64 // e_debounce hooks seen
+	handlers    int32 // event handlers started by a flush and not finished
+	rfArmed     int32 // refresh debounce timer armed / refreshNow requested, not yet picked up by the flusher
+	rfSince     int64 // tick of the last arming
+	rfQueued    int64 // d_debounce + d_refresh_now hooks seen
+	refreshing  int32 // the refresh function is running
+	calls       int32 // Session.refreshRing calls of the harness that have not returned
+	lost        bool  // a request for a refresh was never served (see quiet)
+	holdMu      sync.Mutex
+	holdHandler chan struct{} // non-nil: the next node event handler parks before it reads its frames
+	handlerHeld chan struct{}
+	parked      bool
+	async       bool // refresh steps do not wait for the call to return (set while a step is held)
+	holdPeers   bool // the next system.peers answer is withheld (after the rows have been read)
+	peersHeld   chan struct{}
+	heldReply   func()
 }
 
 // vfC16Policy wraps the round-robin policy to see when the session's asynchronous
@@ -238,9 +261,19 @@ var (
 	vfC16Events     int64
 )
 
+// vfC16Ticks counts 10 ms sleeps of a goroutine of this process: the clock for "this should have
+// happened by now" (a process that gets no CPU does not tick either).
+var vfC16Ticks int64
+
 // vfC16InstallScope routes the pool / debouncer hooks of every scenario of this process.
 func vfC16InstallScope() {
 	vfC16ScopeOnce.Do(func() {
+		go func() {
+			for {
+				time.Sleep(10 * time.Millisecond)
+				atomic.AddInt64(&vfC16Ticks, 1)
+			}
+		}()
 		sc := vfNewScope()
 		trim := func() {
 			if atomic.AddInt64(&vfC16Events, 1)%4096 == 0 {
@@ -271,9 +304,33 @@ func vfC16InstallScope() {
 						}
 					}
 				}
-			case "d_debounce":
-				if w, ok := vfC16Debouncers.Load(obj); ok {
-					atomic.StoreInt32(&w.(*vfC16World).debounced, 1)
+			case "d_debounce", "d_refresh_now":
+				if v, ok := vfC16Debouncers.Load(obj); ok {
+					w := v.(*vfC16World)
+					if point == "d_debounce" {
+						atomic.StoreInt32(&w.debounced, 1)
+					}
+					atomic.StoreInt64(&w.rfSince, atomic.LoadInt64(&vfC16Ticks))
+					atomic.StoreInt32(&w.rfArmed, 1)
+					atomic.AddInt64(&w.rfQueued, 1)
+				}
+			case "d_flusher_refresh":
+				if v, ok := vfC16Debouncers.Load(obj); ok {
+					w := v.(*vfC16World)
+					atomic.StoreInt32(&w.refreshing, 1)
+					atomic.StoreInt32(&w.rfArmed, 0)
+				}
+			case "e_debounce":
+				if v, ok := vfC16Debouncers.Load(obj); ok {
+					w := v.(*vfC16World)
+					atomic.StoreInt32(&w.evPending, 1)
+					atomic.AddInt64(&w.evQueued, 1)
+				}
+			case "e_flush":
+				if v, ok := vfC16Debouncers.Load(obj); ok && a > 0 {
+					w := v.(*vfC16World)
+					atomic.AddInt32(&w.handlers, 1)
+					atomic.StoreInt32(&w.evPending, 0)
 				}
 			}
 		}
@@ -455,7 +512,18 @@ func (w *vfC16World) systemTables(nc *vfNodeConn, f *vfFrame, stmt string) bool 
 			}
 			out = append(out, row)
 		}
-		nc.Reply(f, vfOpResult, vfRowsBody(f.Version, "system", "peers", vfC16PeerCols, out, nil, false))
+		body := vfRowsBody(f.Version, "system", "peers", vfC16PeerCols, out, nil, false)
+		w.holdMu.Lock()
+		if w.holdPeers {
+			// the rows have been read; the answer is delivered when the harness says so
+			w.holdPeers = false
+			w.heldReply = func() { nc.Reply(f, vfOpResult, body) }
+			close(w.peersHeld)
+			w.holdMu.Unlock()
+			return true
+		}
+		w.holdMu.Unlock()
+		nc.Reply(f, vfOpResult, body)
 		return true
 	}
 	return false
@@ -520,7 +588,7 @@ func vfC16NewWorld(sc *vfC16Scenario) (*vfC16World, error) {
 	w.pol = &vfC16Policy{HostSelectionPolicy: inner, w: w}
 	cfg.PoolConfig.HostSelectionPolicy = w.pol
 	cfg.ReconnectionPolicy = &ConstantReconnectionPolicy{MaxRetries: 1, Interval: 0}
-	cfg.Timeout = 5 * time.Second // a slow machine must not look like a failing refresh
+	cfg.Timeout = 15 * time.Second // a slow machine (or a withheld answer) must not look like a failing refresh
 	cfg.ConnectTimeout = 5 * time.Second
 	for _, a := range sc.Filt {
 		w.filt[vfC16IP(a)] = true
@@ -545,13 +613,50 @@ func vfC16NewWorld(sc *vfC16Scenario) (*vfC16World, error) {
 		vfC16Debouncers.Store(nd, w)
 		s.ringRefresher = nd
 		vfWithin(2*time.Second, old.stop)
+	} else {
+		// wire mode: the driver's own debouncers, observed through their hooks; the handlers and
+		// the refresh function are wrapped to see them end (and to park a handler on request)
+		vfC16Debouncers.Store(s.ringRefresher, w)
+		vfC16Debouncers.Store(s.nodeEvents, w)
+		vfC16Debouncers.Store(s.schemaEvents, w)
+		rf := s.ringRefresher.refreshFn
+		s.ringRefresher.refreshFn = func() error {
+			defer atomic.StoreInt32(&w.refreshing, 0)
+			return rf()
+		}
+		ncb := s.nodeEvents.callback
+		s.nodeEvents.callback = func(frames []frame) {
+			defer atomic.AddInt32(&w.handlers, -1)
+			w.holdMu.Lock()
+			hold, held := w.holdHandler, w.handlerHeld
+			if hold != nil && w.parked {
+				hold = nil
+			}
+			if hold != nil {
+				w.parked = true
+			}
+			w.holdMu.Unlock()
+			if hold != nil {
+				close(held)
+				<-hold
+			}
+			ncb(frames)
+		}
+		scb := s.schemaEvents.callback
+		s.schemaEvents.callback = func(frames []frame) {
+			defer atomic.AddInt32(&w.handlers, -1)
+			scb(frames)
+		}
 	}
 	return w, nil
 }
 
 func (w *vfC16World) close() {
 	vfWithin(3*time.Second, w.s.Close)
+	w.release()
 	vfC16Debouncers.Delete(w.s.ringRefresher)
+	vfC16Debouncers.Delete(w.s.nodeEvents)
+	vfC16Debouncers.Delete(w.s.schemaEvents)
 	vfC16Worlds.Delete(w.s)
 	for _, n := range w.nodes {
 		n.CloseAll()
@@ -763,7 +868,53 @@ func (w *vfC16World) idle() bool {
 			return false
 		}
 	}
-	return atomic.LoadInt64(&w.fills) <= 0 && w.poolsIdle() && w.pendingUps() <= 0 && w.controlIdle()
+	return atomic.LoadInt64(&w.fills) <= 0 && w.poolsIdle() && w.pendingUps() <= 0 && w.controlIdle() && w.quiet()
+}
+
+// quiet (wire mode): no event waits for its flush, no handler and no refresh runs, no refresh is
+// due, no refreshRing call of the harness is open.  A refresh that is due (timer armed, immediate
+// refresh requested) and is not started although nothing else has been going on for 6 s of the
+// process's own clock - six debounce intervals - counts as lost: the state is then recorded as
+// it is, for TLC to judge.
+func (w *vfC16World) quiet() bool {
+	if w.sc.Mode != "wire" {
+		return true
+	}
+	if atomic.LoadInt32(&w.evPending) != 0 || atomic.LoadInt32(&w.handlers) > 0 || atomic.LoadInt32(&w.refreshing) != 0 {
+		return false
+	}
+	if atomic.LoadInt32(&w.rfArmed) != 0 || atomic.LoadInt32(&w.calls) > 0 {
+		if atomic.LoadInt64(&vfC16Ticks)-atomic.LoadInt64(&w.rfSince) < 600 {
+			return false
+		}
+		w.lost = true
+	}
+	return true
+}
+
+// release lets a parked handler / a withheld system.peers answer go.
+func (w *vfC16World) release() {
+	w.holdMu.Lock()
+	hold, reply := w.holdHandler, w.heldReply
+	w.holdHandler, w.handlerHeld, w.heldReply, w.holdPeers, w.parked = nil, nil, nil, false, false
+	w.holdMu.Unlock()
+	if hold != nil {
+		close(hold)
+	}
+	if reply != nil {
+		reply()
+	}
+}
+
+// await waits until cond holds; false after 10 s of the process's own clock.
+func (w *vfC16World) await(cond func() bool) bool {
+	for t0 := atomic.LoadInt64(&vfC16Ticks); !cond(); {
+		if atomic.LoadInt64(&vfC16Ticks)-t0 > 1000 {
+			return false
+		}
+		time.Sleep(2 * time.Millisecond)
+	}
+	return true
 }
 
 // connsTo: the driver's open connections to the node at abstract address a (pools and control).
@@ -794,7 +945,10 @@ func (w *vfC16World) connsTo(a string) []*Conn {
 // wait out the driver's own debounce timers, which no flag shows.
 func (w *vfC16World) settle(e *vfC16Exp, base int64, minWait, timerWait time.Duration) (rec *vfC16Rec, matched bool, waited time.Duration) {
 	const grace = 150 * time.Millisecond // > the driver's pause after a failed fill (<= 131 ms)
-	const hardCap = 15 * time.Second
+	hardCap := 15 * time.Second
+	if w.sc.Mode == "wire" {
+		hardCap = 40 * time.Second
+	}
 	t0 := time.Now()
 	if minWait > 0 {
 		time.Sleep(minWait)
@@ -894,6 +1048,20 @@ func (w *vfC16World) exec(st *vfC16Step) (errs string, pan string) {
 	case "refresh":
 		w.setTruth(st.Rows)
 		w.setFail(st.Fail)
+		if w.async {
+			// a step placed inside another one: the call is made, its end is awaited by settle
+			atomic.AddInt32(&w.calls, 1)
+			atomic.StoreInt64(&w.rfSince, atomic.LoadInt64(&vfC16Ticks))
+			q0 := atomic.LoadInt64(&w.rfQueued)
+			go func() {
+				w.s.refreshRing()
+				atomic.AddInt32(&w.calls, -1)
+			}()
+			if !w.await(func() bool { return atomic.LoadInt64(&w.rfQueued) > q0 }) {
+				return "hang", ""
+			}
+			return "", ""
+		}
 		var err error
 		ok, _ := vfWithin(20*time.Second, func() { err = w.s.refreshRing() })
 		w.setFail("none")
@@ -910,6 +1078,7 @@ func (w *vfC16World) exec(st *vfC16Step) (errs string, pan string) {
 			if nc == nil {
 				return "nocontrol", ""
 			}
+			q0 := atomic.LoadInt64(&w.evQueued)
 			for _, e := range st.Evs {
 				ip := net.ParseIP(vfC16IP(e.Addr))
 				if e.Kind == "UP" || e.Kind == "DOWN" {
@@ -917,6 +1086,10 @@ func (w *vfC16World) exec(st *vfC16Step) (errs string, pan string) {
 				} else {
 					nc.Event(vfTopologyEventBody(e.Kind, ip, 9042))
 				}
+			}
+			// the frames have arrived when the debouncer has queued them
+			if !w.await(func() bool { return atomic.LoadInt64(&w.evQueued) >= q0+int64(len(st.Evs)) }) {
+				return "undelivered", ""
 			}
 		} else {
 			var frames []frame
@@ -954,7 +1127,11 @@ func (w *vfC16World) exec(st *vfC16Step) (errs string, pan string) {
 			if nc == nil {
 				return "nocontrol", ""
 			}
+			q0 := atomic.LoadInt64(&w.evQueued)
 			nc.Event((&vfW{}).String("SCHEMA_CHANGE").String("UPDATED").String("KEYSPACE").String("ks").b)
+			if !w.await(func() bool { return atomic.LoadInt64(&w.evQueued) > q0 }) {
+				return "undelivered", ""
+			}
 		} else {
 			w.s.handleSchemaEvent([]frame{&schemaChangeKeyspace{keyspace: "ks", change: "UPDATED"}})
 		}
@@ -1009,16 +1186,11 @@ func vfC16Run(sc *vfC16Scenario, out *vfNDJSON) (steps int, timeouts int, err er
 		return 0, 0, err
 	}
 	defer w.close()
-	// wire mode: a differing state is accepted only after the driver's two 1 s timers had time to fire
-	timerWait := time.Duration(0)
-	if sc.Mode == "wire" {
-		timerWait = 3200 * time.Millisecond
-	}
 	fill := func(r *vfC16Rec, k int, st *vfC16Step) {
 		r.Sc, r.K, r.Mode, r.Filt = sc.N, k, sc.Mode, append([]string{}, sc.Filt...)
 		r.C0, r.Policy = sc.C0, sc.Pol
 		if st != nil {
-			r.Op, r.Rows, r.Fail, r.Evs, r.Addr = st.Op, st.Rows, st.Fail, st.Evs, st.Addr
+			r.Op, r.Rows, r.Fail, r.Evs, r.Addr, r.Ov = st.Op, st.Rows, st.Fail, st.Evs, st.Addr, st.Ov
 		}
 		if r.Rows == nil {
 			r.Rows = []vfC16Row{}
@@ -1035,18 +1207,77 @@ func vfC16Run(sc *vfC16Scenario, out *vfNDJSON) (steps int, timeouts int, err er
 	rec.Refreshes = 0
 	rec.Matched, rec.Waited = m, int(wt/time.Millisecond)
 	out.Write(rec)
-	for k := range sc.Steps {
+	for k := 0; k < len(sc.Steps); k++ {
 		st := &sc.Steps[k]
 		base := atomic.LoadInt64(&w.peersQ)
-		errs, pan := w.exec(st)
-		minWait := time.Duration(0)
-		if sc.Mode == "wire" && (st.Op == "events" || st.Op == "burst" || st.Op == "schema") {
-			minWait = 1150 * time.Millisecond // the event debouncer delivers 1 s after the last event
-			if st.Op == "burst" {
-				minWait = 2600 * time.Millisecond
+		if k+1 < len(sc.Steps) && sc.Steps[k+1].Ov != "" && sc.Mode == "wire" {
+			// The next step happens while this one is in progress: this one is started and held -
+			// its event handler parked before it reads its frames ("handler"), or the answer to its
+			// system.peers query withheld after the rows were read ("peers") -, the next one is
+			// carried out, then the held one goes on.  One state is recorded, after both.
+			in := &sc.Steps[k+1]
+			w.holdMu.Lock()
+			if in.Ov == "handler" {
+				w.holdHandler, w.handlerHeld, w.parked = make(chan struct{}), make(chan struct{}), false
+			} else {
+				w.holdPeers, w.peersHeld = true, make(chan struct{})
 			}
+			reached := w.handlerHeld
+			if in.Ov != "handler" {
+				reached = w.peersHeld
+			}
+			w.holdMu.Unlock()
+			w.async = true
+			errs, pan := w.exec(st)
+			ok := errs == "" && pan == ""
+			if ok {
+				ok = w.await(func() bool {
+					select {
+					case <-reached:
+						return true
+					default:
+						return false
+					}
+				})
+			}
+			if !ok {
+				w.async = false
+				w.release()
+				w.stalled = true
+				break
+			}
+			hr := w.project(false)
+			fill(hr, k+1, st)
+			hr.Held = true
+			out.Write(hr)
+			steps++
+			base = atomic.LoadInt64(&w.peersQ)
+			q0 := atomic.LoadInt64(&w.rfQueued)
+			errs, pan = w.exec(in)
+			if in.Ov == "peers" && in.Op != "refresh" && errs == "" {
+				// the event has been handled when it has asked for its refresh
+				if !w.await(func() bool { return atomic.LoadInt64(&w.rfQueued) > q0 }) {
+					errs = "undelivered"
+				}
+			}
+			w.async = false
+			w.release()
+			rec, m, wt := w.settle(in.Exp, base, 0, 0)
+			fill(rec, k+2, in)
+			if errs == "" && w.lost && atomic.LoadInt32(&w.calls) > 0 {
+				errs = "unanswered"
+			}
+			rec.Err, rec.Panic, rec.Matched, rec.Waited = errs, pan, m, int(wt/time.Millisecond)
+			out.Write(rec)
+			steps++
+			k++
+			if pan != "" || w.mismatch || w.stalled {
+				break
+			}
+			continue
 		}
-		rec, m, wt := w.settle(st.Exp, base, minWait, timerWait)
+		errs, pan := w.exec(st)
+		rec, m, wt := w.settle(st.Exp, base, 0, 0)
 		fill(rec, k+1, st)
 		rec.Err, rec.Panic, rec.Matched, rec.Waited = errs, pan, m, int(wt/time.Millisecond)
 		out.Write(rec)
@@ -1069,9 +1300,6 @@ func vfC16Run(sc *vfC16Scenario, out *vfNDJSON) (steps int, timeouts int, err er
 		}
 		base := atomic.LoadInt64(&w.peersQ)
 		lateWait := 40 * time.Millisecond
-		if sc.Mode == "wire" {
-			lateWait = 1200 * time.Millisecond
-		}
 		var le *vfC16Exp
 		if last != nil {
 			c := *last
